@@ -77,6 +77,7 @@ type Req struct {
 	epoch int
 	arr   int
 	id    string
+	at    int64 // fake time of arrival
 }
 
 type DStream struct {
@@ -98,21 +99,22 @@ type DStream struct {
 }
 
 type Conn struct {
-	id      string // tag.nK#c
-	tag     string // agent tag, e.g. m1d
-	member  int
-	role    string // a (kv), m (meta), d (dcp)
-	node    int
-	rwc     io.Closer
-	wmu     sync.Mutex
-	wr      *memd.Conn
-	bucket  *Bucket
-	closed  bool
-	queue   []*Req
-	streams map[int]*DStream
-	stalled bool
-	dcpName string
-	zombie  bool
+	id        string // tag.nK#c
+	tag       string // agent tag, e.g. m1d
+	member    int
+	role      string // a (kv), m (meta), d (dcp)
+	node      int
+	rwc       io.Closer
+	wmu       sync.Mutex
+	wr        *memd.Conn
+	bucket    *Bucket
+	closed    bool
+	queue     []*Req
+	streams   map[int]*DStream
+	stalled   bool
+	dcpName   string
+	zombie    bool
+	silentFor bool // stays silent through the quiesce phase (C20 'never')
 }
 
 type Cluster struct {
@@ -317,7 +319,7 @@ func (c *Cluster) serve(cn *Conn, sv *pipeEnd) {
 			continue
 		}
 		c.arr++
-		q := &Req{conn: cn, pkt: r, epoch: c.w.epoch, arr: c.arr}
+		q := &Req{conn: cn, pkt: r, epoch: c.w.epoch, arr: c.arr, at: c.w.now()}
 		q.id = fmt.Sprintf("%s|%s|vb%d|%s|%s", cn.id, r.Command.Name(), r.Vbucket, printable(r.Key), reqDetail(&r))
 		cn.queue = append(cn.queue, q)
 		rev := &journal.Ev{K: journal.KReq, M: cn.member, Vb: int(r.Vbucket), Key: r.Key, S: r.Command.Name(), ID: q.id, S2: cn.role, I: int64(q.arr)}
